@@ -40,6 +40,8 @@ import (
 //   c03rt step_ms=<s> n=<buckets> ds=<d1,d2,..> (ms) gap_us=<g>
 //     real-time smoke run on the real ticker: output rt=<d_ms>:<elapsed_us>,... dbl=<n>
 
+var cbTimeouts int
+
 type wreq struct {
 	tid, op      int
 	k0, k1, cret int
@@ -300,9 +302,18 @@ func init() {
 			}
 		}
 		// callbacks: wait (bounded) for the goroutines of AfterFunc
-		deadline := time.Now().Add(5 * time.Second)
+		// (5 s once; after a callback failed to arrive in time the budget per case drops to 20 ms,
+		// so that a tree whose AfterFunc goroutine never gets its channel cannot stall the run)
+		budget := 5 * time.Second
+		if cbTimeouts > 0 {
+			budget = 20 * time.Millisecond
+		}
+		deadline := time.Now().Add(budget)
 		for r.pendingCallbacks() && time.Now().Before(deadline) && !tickerDead {
 			time.Sleep(50 * time.Microsecond)
+		}
+		if r.pendingCallbacks() && !tickerDead {
+			cbTimeouts++
 		}
 		for _, q := range r.reqs {
 			if q.after && q.obs != "panic" {
